@@ -3,7 +3,8 @@
   `on_thread_stop`), when `BaseObserver.start()` starts an emitter outside the observer's lock and a `stop()` /
   `unschedule()` overtakes it.  Two threads, one step per attribute access (the GIL makes each atomic):
 
-    starter:  buf = InotifyBuffer(...) ; self._inotify = buf ; if stopped: on_thread_stop()
+    starter:  [if self.ident is not None: raise] ; buf = InotifyBuffer(...) ; self._inotify = buf ;
+              if stopped: on_thread_stop() ; Thread.start (sets ident) ; optionally start() once more
     stopper:  stopped = True ; on_thread_stop()
     on_thread_stop:  x = self._inotify ; if x is not None: (self._inotify = None ; x.close())
 
@@ -11,17 +12,21 @@
   interleaving in which the stopper reads None, the starter assigns the buffer, and the stopper's write of None wipes the
   only reference - `handover` below did not check until `on_thread_stop` stopped writing when it had read None.)
 
+  (D20: before `BaseThread.start` looked at `ident`, a second `start()` of a started emitter ran `on_thread_start`
+  again and overwrote `_inotify` - the first buffer, which the running thread reads, could no longer be closed by
+  anyone: `lost` below, and `stepNoGuard`.)
+
   `close` is idempotent (Inotify.close / InotifyBuffer.close check `_closed` under the instance's lock, C12).
 -/
 namespace WD.Hand
 
-inductive SPc | create | assign | check | rd | wr | cl | done
+inductive SPc | guard | create | assign | check | rd | wr | cl | started | done
   deriving DecidableEq, Repr, Inhabited
 inductive TPc | setFlag | rd | wr | cl | done
   deriving DecidableEq, Repr, Inhabited
 
 structure St where
-  sp : SPc := .create
+  sp : SPc := .guard
   tp : TPc := .setFlag
   stopped : Bool := false
   created : Bool := false      -- the buffer exists (its thread runs, its descriptors are open)
@@ -29,18 +34,26 @@ structure St where
   field : Bool := false        -- `self._inotify is not None`
   sx : Bool := false           -- the starter's local `x is not None`
   ty : Bool := false           -- the stopper's local `y is not None`
+  ident : Bool := false        -- `Thread.start` has run (`self.ident is not None`)
+  again : Bool := false        -- the starter will call `start()` a second time
+  lost : Bool := false         -- a reference to a buffer was overwritten by another one
   deriving DecidableEq, Repr, Inhabited
 
 /-- one step of the starter (`true`) or of the stopper (`false`); a finished thread does nothing -/
-def step (s : St) (starter : Bool) : St :=
+def stepG (guarded : Bool) (s : St) (starter : Bool) : St :=
   if starter then
     match s.sp with
+    | .guard =>
+      if guarded && s.ident then (if s.again then { s with again := false } else { s with sp := .done })   -- raise RuntimeError
+      else { s with sp := .create }
     | .create => { s with sp := .assign, created := true }
-    | .assign => { s with sp := .check, field := true }
-    | .check => if s.stopped then { s with sp := .rd } else { s with sp := .done }
-    | .rd => if s.field then { s with sp := .wr, sx := true } else { s with sp := .done, sx := false }
+    | .assign => { s with sp := .check, field := true, lost := s.lost || s.field }
+    | .check => if s.stopped then { s with sp := .rd } else { s with sp := .started }
+    | .rd => if s.field then { s with sp := .wr, sx := true } else { s with sp := .started, sx := false }
     | .wr => { s with sp := .cl, field := false }
-    | .cl => { s with sp := .done, closed := s.closed || s.sx }
+    | .cl => { s with sp := .started, closed := s.closed || s.sx }
+    | .started =>       -- `threading.Thread.start(self)` (raises when already started; either way this call is over)
+      if s.again then { s with sp := .guard, ident := true, again := false } else { s with sp := .done, ident := true }
     | .done => s
   else
     match s.tp with
@@ -50,12 +63,21 @@ def step (s : St) (starter : Bool) : St :=
     | .cl => { s with tp := .done, closed := s.closed || s.ty }
     | .done => s
 
+def step : St → Bool → St := stepG true
+
+/-- `BaseThread.start` before D20 was repaired: no look at `ident` -/
+def stepNoGuard : St → Bool → St := stepG false
+
 def run (s : St) (sched : List Bool) : St := sched.foldl step s
+
+/-- the starter calls `start()` once (`false`) or twice (`true`) -/
+def init (again : Bool) : St := { again := again }
 
 /-- the version before the repair: `on_thread_start` does not look at the flag -/
 def stepOld (s : St) (starter : Bool) : St :=
   if starter then
     match s.sp with
+    | .guard => { s with sp := .create }
     | .create => { s with sp := .assign, created := true }
     | .assign => { s with sp := .done, field := true }
     | _ => s
@@ -72,7 +94,8 @@ namespace WD.Hand
 
 /-- the shape of the source this model was written from, in the vocabulary of `harness/tables.py` (`handover_shape`):
     one label per statement, shared attributes only -/
-def modelThreadStart : List String := ["call on_thread_start", "start thread"]
+def modelThreadStart : List String :=
+  ["if self.ident is not None: [local; other: raise RuntimeError(error)]", "call on_thread_start", "start thread"]
 def modelThreadStop : List String := ["set stop flag", "call on_thread_stop"]
 def modelOnThreadStart : List String :=
   ["local", "local", "create buffer; write field", "if not self.should_keep_running(): [call on_thread_stop]"]
